@@ -72,7 +72,7 @@ Proof. exact mempool_rejects_conflict. Qed.
 Print Assumptions C06_mempool_rejects_conflict.
 
 (* ---------------------------------------------------------------- the coinbase check is necessary *)
-(* The tree before commit dc1450e9 (flag cb_dup_check = false) violates the
+(* The tree before commit ccb9f8c7 (flag cb_dup_check = false) violates the
    property: block 5 re-uses block 2's coinbase (id 2); outpoint (2,1) is spent
    in block 4 and again in block 7.  Replayed on the Go code (harness corpus,
    history 1). *)
